@@ -709,7 +709,7 @@ func runForced(r *vk.Run, sched *vk.Sched, sc scenario) {
 }
 
 func stress(r *vk.Run) {
-	n := r.Pick(3000, 150000)
+	n := r.Pick(3000, 900000)
 	sched := vk.NewSched()
 	defer sched.Close()
 	for i := 0; i < n; i++ {
